@@ -328,6 +328,12 @@ def check(case, ctx):
     for w, g in zip(want_cues, cues):
         if (g['start'] // 1000, g['end'] // 1000) != (w['start'] // 1000, w['end'] // 1000):
             fails.append({'what': 'cues of one caption do not share its times', 'got': [g['start'], g['end']]})
+        # each cue carries the text of its own layout group, nothing of the groups before it
+        squash = lambda parts: ''.join(ch for p in parts for ch in p if not ch.isspace())
+        if squash(g['lines']) != squash(w['texts']):
+            fails.append({'what': 'a cue does not carry exactly the text of its layout group',
+                          'expected': w['texts'], 'got': g['lines']})
+        ctx.count('webvtt_cue_texts_compared')
         settings = {}
         for s in g['settings']:
             k, _, v = s.partition(':')
